@@ -137,6 +137,10 @@ CORPUS = {
     "condition-calling-a-helper-with-two-signatures": S("def scale(v):\n    return v * 2\ng = 2.5\nk = 0\nwhile True:\n    if scale(3) < scale(g):\n        mon.write(1)\n    elif scale(k) > scale(g):\n        mon.write(2)\n    else:\n        mon.write(0)\n"
                                                         "    while scale(k) < scale(g) - 1:\n        k = k + 1\n    mon.write(k)\n    g = g + 1.5\n    sleep(5)\n"),
     "bare-except": S("x = 1\ntry:\n    x = 2\nexcept:\n    x = 3\nmon.write(x)\n"),
+    "short-circuit-keeps-skipped-operands-unevaluated": S("def check(v):\n    mon.write(v)\n    return 1\nxs = [1, 2, 3]\nk = 0\nwhile True:\n    if k > 2 and check(k) == 1:\n        mon.write('both')\n    if k < 2 or check(k + 10) == 1:\n        mon.write('either')\n"
+                                                          "    ok = k < 3 and xs[k] > 1\n    mon.write(ok)\n    j = 0\n    while j < 2 and check(j + 20) > 0:\n        j = j + 1\n    k = k + 1\n    sleep(5)\n"),
+    "comprehension-target-reuses-outer-names": S("title = 'abc'\nxs = [title + 1 for title in range(3)]\ncopy = title\nmon.write(copy)\nmon.write(xs[2])\ndef label(tag):\n    ys = [tag * 2 for tag in range(2)]\n    return tag\n"
+                                                 "mon.write(label('t'))\nvals = [1, 2, 3]\nzs = [vals for vals in range(2)]\nmon.write(len(vals) + zs[1])\n"),
     "main-loop-header-with-trailing-comment": S("k = 0\nwhile True:  # main loop\n    k = k + 1\n    mon.write(k)\n    sleep(5)\n"),
     "sleep-in-branches": S("k = 0\nwhile True:\n    if k % 2 == 0:\n        sleep(100)\n    else:\n        sleep(250)\n    k = k + 1\n    mon.write(k)\n"),
 }
